@@ -42,6 +42,15 @@ check("C05", "exploration",
       "Trusts M-checks; keys registered by a row that a later-declared check rejected and aborted raise-mode runs are unjudged.",
       "recorded reader history vs executable model of the whole-file checks (M-checks)", "DESIGN.md 5/C05")
 
+check("C06", "exploration",
+      "Each generated case is read in the three error modes on fresh CIDs from six storages and the recorded histories are "
+      "compared with each other (continue = accepted rows of yield; raise = prefix + the same error), with the counters "
+      "(conservation) and with the row model; yielded errors are re-inspected after the run; container faults are injected at "
+      "every row boundary (unterminated quote, undecodable byte, short fixed record, wrong delimiter, truncated ODS/XLSX "
+      "archive, cut content.xml) and must end in DataFormatError in every mode.",
+      "Relational oracle over executions of the real reader plus M-reader; corrupted containers that still parse are unjudged.",
+      "recorded histories of three reader runs compared relationally + fault injection at row boundaries", "DESIGN.md 5/C06")
+
 NOT_YET = "check not built yet in this session; see DESIGN.md section 5 for the planned monitor"
 
 def main():
